@@ -62,6 +62,8 @@ def size(shape):
 
 def ew_leaf(rng, shape, allow_cond=True):
     n = size(shape)
+    if n == 0:
+        allow_cond = False   # a zero-sized leaf has no element token that could carry its conditional-ness: keep it unconditional
     kind = rng.choice(["A", "A", "L", "S", "E", "T", "K", "AC" if allow_cond else "A", "P"])
     if kind == "A":
         locs = [rng.uniform(-2, 2) for _ in range(n)]
